@@ -664,6 +664,9 @@ type loopInfo struct {
 	ord    int
 	kind   string
 	stmt   ast.Node // *ast.ForStmt / *ast.RangeStmt / nil
+	// ext: blocks outside the natural loop whose predecessors all lie in the
+	// loop (or in ext): the code in front of a break.
+	ext map[*ssa.BasicBlock]bool
 }
 
 func findLoops(fn *ssa.Function) []*loopInfo {
@@ -702,6 +705,25 @@ func findLoops(fn *ssa.Function) []*loopInfo {
 	sort.Slice(out, func(i, j int) bool { return out[i].header.Index < out[j].header.Index })
 	for i, li := range out {
 		li.ord = i + 1
+		li.ext = map[*ssa.BasicBlock]bool{}
+		for changed := true; changed; {
+			changed = false
+			for _, b := range fn.Blocks {
+				if li.body[b] || li.ext[b] || len(b.Preds) == 0 || strings.HasSuffix(b.Comment, ".done") {
+					continue
+				}
+				all := true
+				for _, pr := range b.Preds {
+					if !li.body[pr] && !li.ext[pr] {
+						all = false
+					}
+				}
+				if all {
+					li.ext[b] = true
+					changed = true
+				}
+			}
+		}
 	}
 	return out
 }
